@@ -254,9 +254,67 @@ func runC03(c *Ctx) {
 	// ---------- R03.6 Teardown
 	c.Rule("R03.6", "E3", "Teardown: UpdateWithConflicts (not raw Update) with the owner option, skipped iff already tearing down; ready = Finalizers().Empty() of the committed value", 5)
 
-	if f := p.Method(pkgState, "coreWrapper", "Teardown"); c.NeedFunc("R03.6", f, gWTeardown) {
+	teardownRule(c, "R03.6")
+
+	// ---------- R03.7 ContextWithTeardown
+	c.Rule("R03.7", "E7", "ContextWithTeardown: watch established before the context is returned; cancel deferred in the goroutine; goroutine ends iff torn down / destroyed / watch error / parent done", 6)
+
+	if f := p.Method(pkgState, "coreWrapper", "ContextWithTeardown"); c.NeedFunc("R03.7", f, wrapT+".ContextWithTeardown") {
+		c.MustCut("R03.7", "return ctx ⊣ {Watch err == nil}", f, ReturnsNilConst(1), CutSpec{Edges: FactEdge("nil(call:" + gWatch + "(*")}, 1)
+
+		gos := GoClosures(f)
+		if len(gos) != 1 {
+			c.Bad("R03.7", FuncName(f)+" :: one watcher goroutine", fpos(f), fmt.Sprintf("%d goroutines", len(gos)))
+		} else {
+			g := gos[0]
+			c.Touch(g)
+
+			defers := Find(g, func(in ssa.Instruction) bool { _, ok := in.(*ssa.Defer); return ok })
+			okD := len(defers) >= 1 && defers[0].Block() == g.Blocks[0] && Glob("dyn:free:call:context.WithCancelCause(*)#1", p.CalleeName(defers[0].(ssa.CallInstruction)))
+			c.Check(okD, "R03.7", FuncName(g)+" :: cancel is deferred at goroutine entry", fpos(g), "defer cancel(nil)", "no deferred cancel at entry")
+
+			td := p.ConstVal(pkgResource, "PhaseTearingDown")
+			exits := FactEdge("eq(select#0,const:0)", evType("Destroyed"), evType("Errored"),
+				"eq(call:(pkg/resource.Metadata).Phase(*call:(pkg/resource.Resource).Metadata(*var:pkg/state.Event.Resource)),"+td+")")
+			c.MustCut("R03.7", "goroutine returns ⊣ {parent done, Destroyed, Errored, phase==TearingDown}", g, IsReturn, CutSpec{Edges: exits}, 1)
+
+			// and each of those does end it (no path back to the select)
+			for name, fact := range map[string]string{"Destroyed": evType("Destroyed"), "Errored": evType("Errored"),
+				"TearingDown": "eq(call:(pkg/resource.Metadata).Phase(*call:(pkg/resource.Resource).Metadata(*var:pkg/state.Event.Resource))," + td + ")"} {
+				c.NoReach("R03.7", name+" ends the goroutine", g, p.EdgeSuccs(g, fact), 1, isSelect, CutSpec{})
+			}
+
+			// the phase test applies to Created/Updated only
+			c.MustCut("R03.7", "phase test ⊣ {Type ∈ {Created, Updated}}", g, p.CallTo("(pkg/resource.Metadata).Phase"), CutSpec{Edges: FactEdge(evType("Created"), evType("Updated"))}, 1)
+			// Errored cancels with the event's error
+			c.MustCut("R03.7", "cancel(ev.Error) ⊣ {Type==Errored}", g, func(in ssa.Instruction) bool {
+				call, ok := in.(*ssa.Call)
+
+				return ok && Glob("dyn:free:call:context.WithCancelCause(*)#1", p.CalleeName(call)) && p.ArgDesc(call, 0) == "*var:pkg/state.Event.Error"
+			}, CutSpec{Edges: FactEdge(evType("Errored"))}, 1)
+		}
+	}
+
+	// ---------- R03.8 the controller runtime's cached ContextWithTeardown (same obligations as C15 R15.6)
+	c.Import(runC15, "R15.6", "", "R03.8", "E1", "cached ContextWithTeardown: a waiter channel is closed on TearingDown put / any remove, deleted only together with its close, never removed by one of the callers sharing it; immediate cancel when absent or tearing down", 9)
+
+	// ---------- R03.9 (shared with C19 R19.3)
+	c.Import(runC19, "R19.3", "pkg/resource.Finalizers)", "R03.9", "E3", "Finalizers.Add/Remove write only to storage created in the same call: two parties adding finalizers to copies of one stored resource cannot overwrite each other's entry in a shared backing array (a finalizer that was acknowledged is still there when Teardown asks)", 2)
+
+}
+
+func detailSet(dst *string, v string) { *dst = v }
+
+var _ = strings.Contains
+
+// teardownRule (R03.6, shared with C04 R04.14): the Get+Update fallback of Teardown is a read-modify-write — it marks through
+// UpdateWithConflicts with the caller's owner, and the ready flag it reports is computed from the value the committed update
+// returned (not from the first Get, which a concurrent AddFinalizer may have overtaken).
+func teardownRule(c *Ctx, rule string) {
+	p := c.P
+	if f := p.Method(pkgState, "coreWrapper", "Teardown"); c.NeedFunc(rule, f, gWTeardown) {
 		raw := p.Calls(f, gUpdate)
-		c.Check(len(raw) == 0, "R03.6", FuncName(f)+" :: no raw Update", fpos(f), "none", "Teardown writes through a raw Update: concurrent changes are lost or the call fails spuriously")
+		c.Check(len(raw) == 0, rule, FuncName(f)+" :: no raw Update", fpos(f), "none", "Teardown writes through a raw Update: concurrent changes are lost or the call fails spuriously")
 
 		uw := p.Calls(f, gUWC)
 		ok := len(uw) == 1
@@ -269,15 +327,15 @@ func runC03(c *Ctx) {
 			ok = ok && Glob("call:(pkg/resource.Resource).Metadata(call:"+gGet+"(param#0.CoreState,param#1,param#2,nil)#0)", d)
 		}
 
-		c.Check(ok, "R03.6", FuncName(f)+" :: UpdateWithConflicts(current.Metadata(), …, WithUpdateOwner(options.Owner))", fpos(f), d, "target/options: "+d)
+		c.Check(ok, rule, FuncName(f)+" :: UpdateWithConflicts(current.Metadata(), …, WithUpdateOwner(options.Owner))", fpos(f), d, "target/options: "+d)
 
 		td := p.ConstVal(pkgResource, "PhaseTearingDown")
-		c.MustCut("R03.6", "UpdateWithConflicts ⊣ {phase(current) != TearingDown}", f, p.CallTo(gUWC),
+		c.MustCut(rule, "UpdateWithConflicts ⊣ {phase(current) != TearingDown}", f, p.CallTo(gUWC),
 			CutSpec{Edges: FactEdge("ne(call:(pkg/resource.Metadata).Phase(*call:(pkg/resource.Resource).Metadata(call:" + gGet + "(*)#0))," + td + ")")}, 1)
 
-		if mut := StaticOrClosureCallee2First(uw, 3); c.NeedFunc("R03.6", mut, "Teardown mutator") {
+		if mut := StaticOrClosureCallee2First(uw, 3); c.NeedFunc(rule, mut, "Teardown mutator") {
 			sp := p.Calls(mut, "(*pkg/resource.Metadata).SetPhase")
-			c.Check(len(sp) == 1 && p.ArgDesc(sp[0], 1) == td && Glob("call:(pkg/resource.Resource).Metadata(param#0)", p.ArgDesc(sp[0], 0)), "R03.6", FuncName(mut)+" :: SetPhase(TearingDown) on its argument", fpos(mut), "yes", "mutator does not set PhaseTearingDown on its argument")
+			c.Check(len(sp) == 1 && p.ArgDesc(sp[0], 1) == td && Glob("call:(pkg/resource.Resource).Metadata(param#0)", p.ArgDesc(sp[0], 0)), rule, FuncName(mut)+" :: SetPhase(TearingDown) on its argument", fpos(mut), "yes", "mutator does not set PhaseTearingDown on its argument")
 		}
 
 		// every success return yields Finalizers().Empty() of Metadata(X), X ∈ {value returned by the committed
@@ -352,59 +410,9 @@ func runC03(c *Ctx) {
 			okR = false
 		}
 
-		c.Check(okR && nR >= 1, "R03.6", FuncName(f)+" :: ready flag = Finalizers().Empty() of {value returned by the committed update | current value when already tearing down}", fpos(f), "yes", "ready flag is computed from another value")
-		c.MustCut("R03.6", "ready flag ⊣ {UpdateWithConflicts err == nil, already tearing down}", f, ReturnsNilConst(1),
+		c.Check(okR && nR >= 1, rule, FuncName(f)+" :: ready flag = Finalizers().Empty() of {value returned by the committed update | current value when already tearing down}", fpos(f), "yes", "ready flag is computed from another value")
+		c.MustCut(rule, "ready flag ⊣ {UpdateWithConflicts err == nil, already tearing down}", f, ReturnsNilConst(1),
 			CutSpec{Edges: FactEdge("nil(call:"+gUWC+"(*)#1)", "eq(call:(pkg/resource.Metadata).Phase(*call:(pkg/resource.Resource).Metadata(call:"+gGet+"(*)#0)),"+td+")",
 				"true(assert["+pkgState+".Teardowner](param#0.CoreState)#1)")}, 1)
 	}
-
-	// ---------- R03.7 ContextWithTeardown
-	c.Rule("R03.7", "E7", "ContextWithTeardown: watch established before the context is returned; cancel deferred in the goroutine; goroutine ends iff torn down / destroyed / watch error / parent done", 6)
-
-	if f := p.Method(pkgState, "coreWrapper", "ContextWithTeardown"); c.NeedFunc("R03.7", f, wrapT+".ContextWithTeardown") {
-		c.MustCut("R03.7", "return ctx ⊣ {Watch err == nil}", f, ReturnsNilConst(1), CutSpec{Edges: FactEdge("nil(call:" + gWatch + "(*")}, 1)
-
-		gos := GoClosures(f)
-		if len(gos) != 1 {
-			c.Bad("R03.7", FuncName(f)+" :: one watcher goroutine", fpos(f), fmt.Sprintf("%d goroutines", len(gos)))
-		} else {
-			g := gos[0]
-			c.Touch(g)
-
-			defers := Find(g, func(in ssa.Instruction) bool { _, ok := in.(*ssa.Defer); return ok })
-			okD := len(defers) >= 1 && defers[0].Block() == g.Blocks[0] && Glob("dyn:free:call:context.WithCancelCause(*)#1", p.CalleeName(defers[0].(ssa.CallInstruction)))
-			c.Check(okD, "R03.7", FuncName(g)+" :: cancel is deferred at goroutine entry", fpos(g), "defer cancel(nil)", "no deferred cancel at entry")
-
-			td := p.ConstVal(pkgResource, "PhaseTearingDown")
-			exits := FactEdge("eq(select#0,const:0)", evType("Destroyed"), evType("Errored"),
-				"eq(call:(pkg/resource.Metadata).Phase(*call:(pkg/resource.Resource).Metadata(*var:pkg/state.Event.Resource)),"+td+")")
-			c.MustCut("R03.7", "goroutine returns ⊣ {parent done, Destroyed, Errored, phase==TearingDown}", g, IsReturn, CutSpec{Edges: exits}, 1)
-
-			// and each of those does end it (no path back to the select)
-			for name, fact := range map[string]string{"Destroyed": evType("Destroyed"), "Errored": evType("Errored"),
-				"TearingDown": "eq(call:(pkg/resource.Metadata).Phase(*call:(pkg/resource.Resource).Metadata(*var:pkg/state.Event.Resource))," + td + ")"} {
-				c.NoReach("R03.7", name+" ends the goroutine", g, p.EdgeSuccs(g, fact), 1, isSelect, CutSpec{})
-			}
-
-			// the phase test applies to Created/Updated only
-			c.MustCut("R03.7", "phase test ⊣ {Type ∈ {Created, Updated}}", g, p.CallTo("(pkg/resource.Metadata).Phase"), CutSpec{Edges: FactEdge(evType("Created"), evType("Updated"))}, 1)
-			// Errored cancels with the event's error
-			c.MustCut("R03.7", "cancel(ev.Error) ⊣ {Type==Errored}", g, func(in ssa.Instruction) bool {
-				call, ok := in.(*ssa.Call)
-
-				return ok && Glob("dyn:free:call:context.WithCancelCause(*)#1", p.CalleeName(call)) && p.ArgDesc(call, 0) == "*var:pkg/state.Event.Error"
-			}, CutSpec{Edges: FactEdge(evType("Errored"))}, 1)
-		}
-	}
-
-	// ---------- R03.8 the controller runtime's cached ContextWithTeardown (same obligations as C15 R15.6)
-	c.Import(runC15, "R15.6", "", "R03.8", "E1", "cached ContextWithTeardown: a waiter channel is closed on TearingDown put / any remove, deleted only together with its close, never removed by one of the callers sharing it; immediate cancel when absent or tearing down", 9)
-
-	// ---------- R03.9 (shared with C19 R19.3)
-	c.Import(runC19, "R19.3", "pkg/resource.Finalizers)", "R03.9", "E3", "Finalizers.Add/Remove write only to storage created in the same call: two parties adding finalizers to copies of one stored resource cannot overwrite each other's entry in a shared backing array (a finalizer that was acknowledged is still there when Teardown asks)", 2)
-
 }
-
-func detailSet(dst *string, v string) { *dst = v }
-
-var _ = strings.Contains
